@@ -195,7 +195,8 @@ PROPS["C03"] = {
         H("h_c03_fragment_scope", shards={"quick": shard_choose("shape", 3), "thorough": shard_choose("shape", 3)}),
         H("h_c03_charref_value", {"DIGITS": 5}, {"DIGITS": 6}, shards={"quick": CHARREF_SHARDS(5), "thorough": CHARREF_SHARDS(6)}),
         H("h_c03_total", {"N": 2}, {"N": 3}, shards={"quick": shard_product(("pre", 8), ("fragment", 2)), "thorough": shard_product(("pre", 8), ("fragment", 2))}),
-        H("h_c03_bytes", {"NB": 4}, {"NB": 4}, shards={"quick": shard_choose("len", 5), "thorough": shard_choose("len", 5)}),
+        H("h_c03_bytes", {"NB": 4}, {"NB": 4}, shards={"quick": ["len=0;cls=0"] + ["len=%d;cls=%d" % (l, c) for l in range(1, 5) for c in range(3)],
+                                                        "thorough": ["len=0;cls=0"] + ["len=%d;cls=%d" % (l, c) for l in range(1, 5) for c in range(3)]}),
     ],
     "bounds": {"quick": "character data of <=3 arbitrary chars with any base offset <=2^40; every sequence of 3 tag/text/comment "
                         "pieces in document and fragment mode (accepted ones must validate and round-trip); 12 ill-formedness "
